@@ -4,6 +4,7 @@ C09 — Interrupt-and-resume at any iteration equals an uninterrupted run.
 import MdpaxV.Model.Ckpt
 import MdpaxV.Props.C08
 import MdpaxV.Props.C12
+import MdpaxV.Props.C01
 set_option linter.unusedSectionVars false
 namespace MdpaxV.C09
 open MdpaxV
@@ -150,6 +151,23 @@ theorem pi_resume (P : Problem α) (c : BatchCfg) (γ thr : α) (t : ConvTest) (
     rw [h2] at h; cases h; exact snapshot_restore_pi snap
   · rintro a b rfl; exact ⟨rfl, rfl⟩
   · rintro c' a b rfl; rfl
+
+/-- **with state shuffling the resumed run still converges within the same error bound**: the resumed solver's permutation stream
+    restarts from the seed, so its sweeps differ from the uninterrupted run's; but from *any* restored snapshot (any values of the
+    right length), with *any* sequence of permutations, a resumed `solve()` that reports convergence under the max_diff test
+    returns values within ε of optimal and a policy within 2γε/(1−γ) of optimal — the same bound as an uninterrupted run -/
+theorem shuffled_resume_within_bound (P : Problem α) (c : BatchCfg) (γ ε : α) (S : C01.Setting P c γ) (hw : C01.IdxWF P)
+    (snap : SState α) (hsnap : snap.values.length = P.nS)
+    (perms' : Nat → Option (List Nat)) (hperms : ∀ n, (orderOf' c.n (perms' n)).Perm (List.range c.n)) (choose : Nat → Bool)
+    (f' k2 : Nat)
+    (hc : (semiSolve P c γ (ε * (1 - γ) / γ) .maxDiff perms' choose f' k2 (restoredState false snap)).converged = true)
+    (pl : List Nat)
+    (hpl : (semiSolve P c γ (ε * (1 - γ) / γ) .maxDiff perms' choose f' k2 (restoredState false snap)).state.policy = some pl)
+    (W U : Fin P.nS → α) (hW : Top P γ W = W) (hU : Tpol P γ (C01.polFn P.nS pl) U = U) (i : Fin P.nS) :
+    |toFn P.nS (semiSolve P c γ (ε * (1 - γ) / γ) .maxDiff perms' choose f' k2 (restoredState false snap)).state.values i - W i| < ε ∧
+    0 ≤ W i - U i ∧ W i - U i < 2 * γ * ε / (1 - γ) :=
+  C01.semiasync_solve_near_optimal P c γ ε S hw perms' hperms choose f' k2 (restoredState false snap)
+    (by simpa [restoredState] using hsnap) hc pl hpl W U hW hU i
 
 end instances
 end MdpaxV.C09
